@@ -7,3 +7,5 @@ open Model.SlicesGen
 #print axioms updateClock_eq
 #print axioms addNextEntry_eq
 #print axioms admission_eq
+#print axioms fromEntry_eq
+#print axioms fromEntryLength_eq
